@@ -131,7 +131,7 @@ def boundary_values(s, w, limit=40):
     def rec(s, w, put):
         if len(out) >= limit:
             return
-        if isinstance(s, custom.FwdSchema):
+        if isinstance(s, custom.FWD_CLASSES):
             return rec(s.props.inner, w, put)
         if isinstance(s, GenericTypeAliasSchema):
             return rec(s.props.type, w, put)
